@@ -10,12 +10,14 @@ def main(tier):
     c.build('asan', ['c11'])
     c.run_family('asan', 'c11', 'foreign-eq', args=args, chunk=1, per_case_timeout=30)
     c.run_family('asan', 'c11', 'resets-api', args=args, chunk=2, per_case_timeout=30)
+    c.run_family('asan', 'c11', 'eqpos-api', args=args, chunk=60, per_case_timeout=5)
     c.run_family('asan', 'c11', 'twins-api', args=args, chunk=2, per_case_timeout=30)
     c.run_family('asan', 'c11', 'imports-api', args=args, chunk=1, per_case_timeout=30)
     c.run_family('asan', 'c11', 'clone-api', args=args, chunk=6 if quick else 16, per_case_timeout=30)
     # the parser costs 1.6 ms per document under ASan and every single mutation needs a fresh parse: the mutation phase of the parsed
     # origin runs on the plain build (value oracle); thorough additionally runs the before-mutation oracle of the parsed origin under ASan
     c.build('plain', ['c11'])
+    c.run_family('plain', 'c11', 'eqpos-parsed', args=args, chunk=60, per_case_timeout=5)
     c.run_family('plain', 'c11', 'twins-parsed', args=args, chunk=4, per_case_timeout=30)
     c.run_family('plain', 'c11', 'imports-parsed', args=args, chunk=1, per_case_timeout=30)
     c.run_family('plain', 'c11', 'clone-parsed', args=args, chunk=6 if quick else 16, per_case_timeout=30)
@@ -42,6 +44,9 @@ def main(tier):
             'import sources attached to the first, the later or both twins; own units of variable twins as separate equal objects or ONE shared object): same oracle; '
             'equivalences are compared by index path, so a link made to the wrong twin is an extra/missing equivalence. One connection id per component pair is used: '
             'two different ids on one pair cannot be written in a document and make equivalenceConnectionId() depend on object addresses (not judged here)',
+            'equivalence positions (families eqpos-*: all ordered forests on 2..5 components of depth <= 3 x every subset of components bearing a variable - the others '
+            'are pure containers or empty leaves - x every pair of variable-bearing positions connected by one equivalence with ids, plus all pairs at once: 3678 '
+            'models): the oracle before mutation on every entity (the model and every component level); no mutation phase for this grid',
             'foreign-eq (a variable equivalent to a variable outside the model) is a carve-out of the semantic oracle: judged only for no crash, original '
             'untouched, and the clone\'s equivalences among its own variables equal to the original\'s',
             'reset links (family resets-api: variable and test_variable each in {own, sibling, child, no component, null}): strict = presence and name of both '
